@@ -1,8 +1,12 @@
 (** C03 -- break and continue act on exactly the innermost loop and restore scopes.
-    One-step lemmas of the machine, valid for every machine state; their composition over a whole loop execution is
-    covered by the loops stream (the structured refinement theorem R of DESIGN.md is not proved). *)
+    One-step lemmas of the machine, valid for every machine state, and -- inside function bodies, for every statement
+    vector the parser can produce -- the frame invariant (FrameInv.v, NoPanic.v): the innermost loop entered by the
+    running call always records the height of the scope stack at its entry and the statement after its own closing
+    continue, the program position is inside that loop's block, so break and continue cut the scope stack exactly to
+    the recorded height (C03_break_exact, C03_continue_exact).  At top level the same composition is covered by the
+    loops stream (the structured refinement theorem R of DESIGN.md is not proved). *)
 From Pakhi Require Import Base Float64 Syntax Tables Lexer Interp.
-From Pakhi.Proofs Require Import Scope Control.
+From Pakhi.Proofs Require Import Scope Control WF WFOps Frames FrameInv NoPanic.
 Local Open Scope nat_scope.
 
 (* entering a loop records its end -- the statement after the closing আবার; of this loop's own block, found by
@@ -44,3 +48,33 @@ Theorem C03_continue_outside_loop_is_error : forall code fuel m p, stmt_at code 
   length (m_loops m) <= m_loop_base m -> interp code (S fuel) m = fail_here code ERuntime m.
 Proof. exact continue_outside_loop. Qed.
 Print Assumptions C03_continue_outside_loop_is_error.
+
+(* under the frame invariant the cut is exact: the scope stack after break / continue has exactly the height recorded
+   when the loop was entered, every loop entered by the caller is untouched, and the invariant holds again *)
+Theorem C03_break_exact : forall code F m l ls, frame_static code F -> finv code F m -> m_loops m = l :: ls ->
+  m_loop_base m < length (m_loops m) ->
+  finv code F (set_pc (set_loops (set_scopes m (truncate (l_depth l) (m_scopes m))) ls) (l_end l)) /\
+  l_depth l <= length (m_scopes m).
+Proof. exact finv_break. Qed.
+Print Assumptions C03_break_exact.
+
+Theorem C03_continue_exact : forall code F m l ls, frame_static code F -> finv code F m -> m_loops m = l :: ls ->
+  m_loop_base m < length (m_loops m) ->
+  finv code F (set_pc (set_scopes m (truncate (l_depth l) (m_scopes m))) (l_start l)) /\ l_depth l <= length (m_scopes m).
+Proof. exact finv_continue. Qed.
+Print Assumptions C03_continue_exact.
+
+(* entering a loop establishes what break and continue rely on *)
+Theorem C03_loop_entry_establishes_invariant : forall code F m p bp cp pc2, frame_static code F -> finv code F m ->
+  stmt_at code (m_pc m) = Some (FLoop p) -> stmt_at code (S (m_pc m)) = Some (FBlockStart bp) ->
+  skip_block_from code m (S (m_pc m)) = Ok pc2 -> stmt_at code pc2 = Some (FContinue cp) ->
+  finv code F (set_pc (set_loops m (mkLoop (S (m_pc m)) (S pc2) (length (m_scopes m)) :: m_loops m)) (S (m_pc m))).
+Proof. exact finv_enter_loop. Qed.
+Print Assumptions C03_loop_entry_establishes_invariant.
+
+(* every forward scan of the interpreter ends at the same block depth and never passes a shallower position *)
+Theorem C03_skip_block_keeps_depth : forall code m pc pc', skip_block_from code m pc = Ok pc' ->
+  pc < pc' /\ (exists q p, pc' = S q /\ stmt_at code q = Some (FBlockEnd p)) /\ sd code pc' = sd code pc /\
+  (forall k, pc <= k -> k <= pc' -> (sd code pc <= sd code k)%Z).
+Proof. exact skip_from_sd. Qed.
+Print Assumptions C03_skip_block_keeps_depth.
